@@ -153,6 +153,11 @@ def check_estimators(prog, rep):
                             sub.stmt(s)
                         got = sub.env.get(MN)
                         Xsym = vn0.env.get(XN)
+                        if Xsym is None:
+                            rep.unrec("R1-estimators", construct, "the coded genotypes %s are not defined before the ploidy branches (another formulation)" % XN)
+                            done.add(pl)
+                            node = node.orelse[0] if len(node.orelse) == 1 and isinstance(node.orelse[0], ast.If) else None
+                            continue
                         r = VN(prog, f, env={"X": Xsym}).expr(ast.parse(MOLECULAR[pl], mode="eval").body)
                         if got == r:
                             rep.ok("R1-estimators", construct + "#ploidy%d" % pl, "molecular coancestry (ploidy %d) == %s" % (pl, MOLECULAR[pl]))
